@@ -121,6 +121,7 @@ func main() {
 	sites := []string{}
 	osSites := []string{}
 	stepHook := false
+	readerSites := 0
 	nGlobals := 0
 
 	for _, dir := range pkgDirs {
@@ -322,6 +323,32 @@ func main() {
 					needVhook = true
 					return true
 				})
+				// 3b. reader hook: every bufio.NewScanner(x) in package interp reads through vhook.WrapReader(x)
+				// (identity unless the harness installs a wrapper), so that file operands, getline < file and
+				// every other scanner can be driven with chosen read sizes
+				ast.Inspect(f, func(n ast.Node) bool {
+					ce, ok := n.(*ast.CallExpr)
+					if !ok || len(ce.Args) != 1 {
+						return true
+					}
+					se, ok := ce.Fun.(*ast.SelectorExpr)
+					if !ok || se.Sel.Name != "NewScanner" {
+						return true
+					}
+					id, ok := se.X.(*ast.Ident)
+					if !ok {
+						return true
+					}
+					pn, ok := info.Uses[id].(*types.PkgName)
+					if !ok || pn.Imported().Path() != "bufio" {
+						return true
+					}
+					sp = append(sp, splice{off(ce.Args[0].Pos()), off(ce.Args[0].Pos()), "vhook.WrapReader("})
+					sp = append(sp, splice{off(ce.Args[0].End()), off(ce.Args[0].End()), ")"})
+					readerSites++
+					needVhook = true
+					return true
+				})
 				// 3. step hook
 				for _, d := range f.Decls {
 					fd, ok := d.(*ast.FuncDecl)
@@ -411,11 +438,11 @@ func main() {
 	writeJSON("overlay_plain.json", plainReplace)
 	sort.Strings(sites)
 	sort.Strings(osSites)
-	meta := map[string]any{"map_range_sites": sites, "os_sites": osSites, "step_hook": stepHook, "package_level_vars_registered": nGlobals}
+	meta := map[string]any{"map_range_sites": sites, "os_sites": osSites, "step_hook": stepHook, "reader_sites": readerSites, "package_level_vars_registered": nGlobals}
 	data, _ := json.MarshalIndent(meta, "", " ")
 	os.WriteFile(filepath.Join(*work, "overlay_meta.json"), data, 0o644)
 	if !*quiet {
-		fmt.Printf("mkoverlay: %d files replaced, %d map-range sites, %d os sites, step hook=%v\n", len(replace), len(sites), len(osSites), stepHook)
+		fmt.Printf("mkoverlay: %d files replaced, %d map-range sites, %d os sites, %d reader sites, step hook=%v\n", len(replace), len(sites), len(osSites), readerSites, stepHook)
 	}
 	if !stepHook {
 		die("anchor for the VM step hook not found")
